@@ -275,13 +275,15 @@ package rules
 //@   property C10
 //@   option safety off
 //@   option mathint
-//@   option stable (*DefaultRuleRenderer).wildcard
+//@   option stable (*DefaultRuleRenderer).wildcard, (*generictables.Chain).Rules, []*generictables.Chain
 //@   option callpre off
 //@   requires r != nil
 //@   ghost at call getMatchForEndpoint: c10Name = arg0
 //@   ghost at call getActionForEndpoint: check arg0 == endpointPfx && arg1 == c10Name
 //@   ghost at call GoTo: check c10Name == prefix + old(r.wildcard)
 //@   ensures res1 != nil && res1.Rules == res2 && len(res2) >= len(endRules)
+//@   ensures forall j int :: 0 <= j && j < len(res0) ==> res0[j] != nil && len(res0[j].Rules) >= len(endRules)
+//@   loop 1 invariant forall j int :: 0 <= j && j < len(childChains) ==> childChains[j] != nil && len(childChains[j].Rules) >= len(endRules)
 //@ -- the nftables variant: one verdict-map rule, then the end rules - in the chain that is returned
 //@ func (*DefaultRuleRenderer).buildSingleDispatchChainsVMAP
 //@   property C10
